@@ -17,6 +17,21 @@ from numbers import Real
 from collections.abc import Sized, Iterable
 
 
+def static_part(expr):
+    """
+    The part of a decision expression that does not depend on random
+    variables. Inside convex functions and cones that is all there may be:
+    an affinely adaptive decision cannot be represented there.
+    """
+
+    if isinstance(expr, RoAffine):
+        if expr.raffine.linear.nnz > 0 or np.any(expr.raffine.const):
+            raise SyntaxError('Incorrect convex expressions.')
+        return expr.affine
+
+    return expr
+
+
 class Model:
     """
     Returns a model object with the given number of scenarios.
@@ -587,10 +602,10 @@ class Model:
                     linear_sc = scale.linear
                     const_sc = scale.const
                     aff_scale = linear_sc@drule + const_sc.reshape(const_sc.size)
+                    aff_scale = static_part(aff_scale)
                 aff_scale = aff_scale.reshape(constr.affine_scale.shape)
 
-                if isinstance(aff_in, RoAffine):
-                    aff_in = aff_in.affine
+                aff_in = static_part(aff_in)
                 if isinstance(constr.affine_out, (np.ndarray, Real)):
                     linear_out = np.zeros((constr.affine_out.size, drule.shape[0]))
                     const_out = constr.affine_out
@@ -598,8 +613,7 @@ class Model:
                     linear_out = constr.affine_out.linear
                     const_out = constr.affine_out.const
                 aff_out = linear_out@drule + const_out.reshape(const_out.size)
-                if isinstance(aff_out, RoAffine):
-                    aff_out = aff_out.affine
+                aff_out = static_part(aff_out)
                 aff_out = aff_out.reshape(constr.affine_out.shape)
 
                 ew_constr = PCvxConstr(aff_in.model, aff_in, aff_scale, aff_out,
@@ -609,8 +623,7 @@ class Model:
                 const_in = constr.affine_in.const
                 aff_in = linear_in@drule + const_in.reshape(const_in.size)
                 aff_in = aff_in.reshape(constr.affine_in.shape)
-                if isinstance(aff_in, RoAffine):
-                    aff_in = aff_in.affine
+                aff_in = static_part(aff_in)
                 if isinstance(constr.affine_out, (np.ndarray, Real)):
                     linear_out = np.zeros((constr.affine_out.size, drule.shape[0]))
                     const_out = constr.affine_out
@@ -619,19 +632,13 @@ class Model:
                     const_out = constr.affine_out.const
                 aff_out = linear_out@drule + const_out.reshape(const_out.size)
                 aff_out = aff_out.reshape(constr.affine_out.shape)
-                if isinstance(aff_out, RoAffine):
-                    aff_out = aff_out.affine
+                aff_out = static_part(aff_out)
                 ew_constr = CvxConstr(aff_in.model, aff_in, aff_out,
                                       constr.multiplier, constr.xtype,
                                       params=constr.params)
             elif isinstance(constr, DecExpConstr):
-                if isinstance(drule, RoAffine):
-                    drule_affine = drule.affine
-                else:
-                    drule_affine = drule
-
                 affine1 = constr.expr1.to_affine()
-                expr1 = affine1.linear@drule_affine + affine1.const
+                expr1 = static_part(affine1.linear@drule + affine1.const)
 
                 if isinstance(constr.expr2, Real):
                     expr2 = constr.expr2
@@ -639,7 +646,7 @@ class Model:
                     affine2 = constr.expr2.to_affine()
                     linear2 = affine2.linear
                     const2 = affine2.const
-                    expr2 = linear2@drule_affine + const2
+                    expr2 = static_part(linear2@drule + const2)
 
                 if isinstance(constr.expr3, Real):
                     expr3 = constr.expr3
@@ -647,17 +654,13 @@ class Model:
                     affine3 = constr.expr3.to_affine()
                     linear3 = affine3.linear
                     const3 = affine3.const
-                    expr3 = linear3@drule_affine + const3
+                    expr3 = static_part(linear3@drule + const3)
 
                 ew_constr = ExpConstr(expr1.model, expr1, expr2, expr3)
 
             elif isinstance(constr, DecLMIConstr):
-                if isinstance(drule, RoAffine):
-                    drule_affine = drule.affine
-                else:
-                    drule_affine = drule
-
-                lmi_left = constr.linear @ drule_affine - constr.const.flatten()
+                lmi_left = static_part(constr.linear @ drule -
+                                       constr.const.flatten())
                 lmi_linear = lmi_left.linear
                 lmi_const = (-lmi_left.const).reshape((constr.dim, constr.dim))
 
